@@ -6,7 +6,8 @@ _counter = itertools.count()
 
 
 def fresh_name(base):
-    return f"{base}!{next(_counter)}"
+    import pyvc.values as _self
+    return f"{base}!{next(_self._counter)}"
 
 
 class EngineError(Exception):
